@@ -157,7 +157,17 @@ struct Counters {
 
 /// fault-free run of a writer case: its output, the positions of random sync bytes in it, its sink calls
 fn reference(case: &Arc<wsess::WCase>) -> (Vec<u8>, Vec<bool>, Vec<i64>, Vec<i64>) {
+    let (a, b, c, d, _) = reference_with_phase(case);
+    (a, b, c, d)
+}
+
+/// ... and the number of sink calls made before the first terminating call of the script
+fn reference_with_phase(case: &Arc<wsess::WCase>) -> (Vec<u8>, Vec<bool>, Vec<i64>, Vec<i64>, usize) {
     let r0 = run_writer(case, Plan::none());
+    let data_calls = {
+        let l = r0.api.log.lock().unwrap();
+        l.term.iter().position(|t| *t != 0).map(|i| if i == 0 { 0 } else { l.at[i - 1] as usize }).unwrap_or(l.at.last().copied().unwrap_or(0) as usize)
+    };
     let (full, ref_ops, ref_lens) = {
         let d = r0.dev.lock().unwrap();
         (d.acc.clone(), d.ops.clone(), d.lens.clone())
@@ -175,7 +185,7 @@ fn reference(case: &Arc<wsess::WCase>) -> (Vec<u8>, Vec<bool>, Vec<i64>, Vec<i64
             }
         }
     }
-    (full, mask, ref_ops, ref_lens)
+    (full, mask, ref_ops, ref_lens, data_calls)
 }
 
 /// one writer session under `plan` as a trace event (+ its outcome class, + "a call returned ok after an
@@ -226,7 +236,7 @@ fn wsess_event(case: &Arc<wsess::WCase>, plan: Plan, full: &[u8], mask: &[bool],
         "rb": rb.0, "rb_cls": rb.1, "rb_rows": strs(&rb.2), "rb_written": strs(&rb.3),
         "ncalls": ncalls, "fired": d.fired,
         "sop": ints(&d.ops), "slen": ints(&d.lens), "sret": ints(&d.rets),
-        "api": strs(&l.names), "ares": strs(&l.res), "aat": ints(&l.at),
+        "api": strs(&l.names), "ares": strs(&l.res), "aat": ints(&l.at), "aterm": ints(&l.term),
         "acc_len": acc.len(), "full_len": full.len(),
         "acc_digest": digest(acc, mask), "full_prefix_digest": digest(pre, mask),
         "masked": mask.iter().filter(|x| **x).count(),
@@ -242,10 +252,17 @@ fn writer_events(args: &Args, inp: &wsess::Inputs, tr: &mut Shards, cnt: &mut Co
         // quick tier: the scripts that differ from a primary one only in the terminating call get fewer indices
         let max_idx = if args.thorough() { 400 } else if case.primary { 44 } else { 20 };
         let case = Arc::new(case);
-        let (full, mask, ref_ops, ref_lens) = reference(&case);
+        let (full, mask, ref_ops, ref_lens, data_calls) = reference_with_phase(&case);
         files.push((case.fmt.to_string(), case.variant.to_string(), full.clone()));
         let mut plans = vec![Plan::none()];
-        for k in pick(&ref_ops, max_idx) {
+        // every sink call of the terminating phase (finish / close / into_inner / final flush) gets its faults
+        // (the last 48 of them in the quick tier); a retry script gets only those
+        let term_from = if args.thorough() { data_calls + 1 } else { (data_calls + 1).max(ref_ops.len().saturating_sub(47)) };
+        let mut idx: std::collections::BTreeSet<usize> = (term_from..=ref_ops.len()).collect();
+        if !case.term_only {
+            idx.extend(pick(&ref_ops, max_idx));
+        }
+        for k in idx {
             let (op, len) = (ref_ops[k - 1], ref_lens[k - 1]);
             plans.push(Plan { k, kind: Kind::Error });
             plans.push(Plan { k, kind: Kind::ErrorOnce });
@@ -396,11 +413,13 @@ fn selftest_events(args: &Args) {
     let n = tr.finish();
     // controls: the well-behaved counterparts under every plan / cut must be accepted
     let mut tr = vcore::Trace::create(&args.out, "good-00");
-    let case = Arc::new(selftest::good_writer());
-    let (full, mask, ref_ops, _) = reference(&case);
-    for k in 0..=ref_ops.len() + 1 {
-        for kind in [Kind::Error, Kind::ErrorOnce, Kind::Short, Kind::Interrupted, Kind::Zero] {
-            tr.emit(wsess_event(&case, Plan { k, kind }, &full, &mask, ref_ops.len(), &Readers::new()).0);
+    for case in [selftest::good_writer(), selftest::good_retry_writer()] {
+        let case = Arc::new(case);
+        let (full, mask, ref_ops, _) = reference(&case);
+        for k in 0..=ref_ops.len() + 1 {
+            for kind in [Kind::Error, Kind::ErrorOnce, Kind::Short, Kind::Interrupted, Kind::Zero] {
+                tr.emit(wsess_event(&case, Plan { k, kind }, &full, &mask, ref_ops.len(), &Readers::new()).0);
+            }
         }
     }
     let (variant, cls, read) = selftest::good_reader();
